@@ -29,7 +29,8 @@ Definition to_depth (x : sx) : option nat := match x with I z => Some (Z.to_nat 
 Definition xmat (t : ttree) : mat QI := tmat qII t.
 Definition x_tmat (x : sx) : sx := let t := to_tcomp x in L [of_nat_sx (tw t); of_mat (tw t) (xmat t)].
 
-(* Circuit.inverse: (tree v h) -> (matrix by the code, expected matrix, (ok for each of the 8 fix-flag triples fv fh ft)) *)
+(* Circuit.inverse: (tree v h) -> (matrix by the code as it is now, expected matrix,
+   (ok for each of the 8 flag triples fv fh ft), matrix by the historical code) *)
 Definition flag_triples : list (bool * bool * bool) :=
   [(false, false, false); (true, false, false); (false, true, false); (false, false, true);
    (true, true, false); (true, false, true); (false, true, true); (true, true, true)].
@@ -37,9 +38,10 @@ Definition x_inverse (x : sx) : sx :=
   let t := to_tcomp (nthx 0 x) in let v := to_bool (nthx 1 x) in let h := to_bool (nthx 2 x) in
   let m := tw t in
   let ex := retab m (expected v h m (xmat t)) in
-  L [of_mat m (xmat (circuit_inverse false false false v h t)); of_mat m ex;
+  L [of_mat m (xmat (circuit_inverse_now v h t)); of_mat m ex;
      L (map (fun f => match f with (fv, fh, ft) => of_bool (meqb m (xmat (circuit_inverse fv fh ft v h t)) ex) end)
-            flag_triples)].
+            flag_triples);
+     of_mat m (xmat (circuit_inverse_old v h t))].
 
 (* decompose_perms: tree -> (listing ((off width perm|())..), matrix of the listing, matrix of the tree) *)
 Definition of_fentry (ol : nat * tleaf) : sx :=
@@ -49,14 +51,14 @@ Definition x_decompose (x : sx) : sx :=
   let fc := decompose_perms (tflatten 0 t) in
   L [L (map of_fentry fc); of_mat m (fmatx qII m fc); of_mat m (xmat t)].
 
-(* Experiment.flatten: (M items depth|()) -> (listing by the code, listing repaired, matrix of the code's listing,
-   matrix of the experiment); listing entries (off width is_composite) *)
+(* Experiment.flatten: (M items depth|()) -> (listing by the code as it is now, listing by the historical code,
+   matrix of the code's listing, matrix of the experiment); listing entries (off width is_composite) *)
 Definition of_eentry (ot : nat * ttree) : sx :=
   match ot with (o, t) => L [of_nat_sx o; of_nat_sx (tw t); of_bool (is_sub t)] end.
 Definition x_flatten (x : sx) : sx :=
   let M := to_nat (nthx 0 x) in let items := to_items (nthx 1 x) in let d := to_depth (nthx 2 x) in
-  let lc := exp_flatten false d items in let lf := exp_flatten true d items in
-  L [L (map of_eentry lc); L (map of_eentry lf); of_mat M (ematx qII M lc); of_mat M (ematx qII M items)].
+  let lc := exp_flatten_now d items in let lo := exp_flatten_old d items in
+  L [L (map of_eentry lc); L (map of_eentry lo); of_mat M (ematx qII M lc); of_mat M (ematx qII M items)].
 (* one unitary run of non_unitary_circuit: (M items) -> (min_r, width, block) *)
 Definition x_regroup (x : sx) : sx :=
   let M := to_nat (nthx 0 x) in let run := to_items (nthx 1 x) in
@@ -71,11 +73,11 @@ Definition x_perm_util (x : sx) : sx :=
   | 3%Z => of_nats (invert_permutation (to_nats (nthx 1 x)))
   | _ => of_nats (bubble_swaps (to_nats (nthx 1 x)))
   end.
-(* _update_adjacent folded over the ranges: (m (r..)) -> (groups by the code, groups repaired) *)
+(* _update_adjacent folded over the ranges: (m (r..)) -> (groups by the code as it is now, groups by the historical code) *)
 Definition x_update_adjacent (x : sx) : sx :=
   let m := to_nat (nthx 0 x) in let rs := map to_nats (to_list (nthx 1 x)) in
   let init := map (fun j => [j]) (seq 0 m) in
-  L [L (map of_nats (fold_left update_adjacent rs init)); L (map of_nats (fold_left update_adjacent_fixed rs init))].
+  L [L (map of_nats (fold_left update_adjacent rs init)); L (map of_nats (fold_left update_adjacent_old rs init))].
 (* proved checker: (tree B eps2) -> is the tree's matrix within eps of B entrywise *)
 Definition x_close (x : sx) : sx :=
   let t := to_tcomp (nthx 0 x) in
